@@ -315,6 +315,30 @@ Proof. exact mul_spec. Qed.
 Theorem op_truediv : forall (x y t : nat) (s : store T),
   yields (w_truediv sp (Leaf x) (Leaf y) (Leaf t)) s t (vdiv (s x) (s y)).
 Proof. exact truediv_spec. Qed.
+Theorem op_rsub : forall (x y t : nat) (s : store T),
+  length (s y) = length (s x) -> length (s t) = length (s y) ->
+  yields (w_rsub flg bdtf icast sp (Leaf x) (Leaf y) (Leaf t)) s t (vsub (s y) (s x)).
+Proof. exact (rsub_spec flg bdtf icast). Qed.
+Theorem op_sub_scalar : forall (c : T) (x t : nat) (s : store T),
+  t <> x -> length (s t) = length (s x) ->
+  yields (w_sub_scalar flg bdtf icast sp (Leaf x) c (Leaf t)) s t (map (fun e => e - c) (s x)).
+Proof. exact (sub_scalar_spec flg bdtf icast). Qed.
+(* x += c : lincomb(1, x, c, one(), out=x); t is the temporary returned by one() *)
+Theorem op_iadd_scalar : forall (c : T) (x t : nat) (s : store T),
+  t <> x -> length (s t) = length (s x) ->
+  exists s', w_iadd_scalar flg bdtf icast sp (Leaf x) c (Leaf t) s = Ok s'
+    /\ s' x = map (fun e => e + c) (s x)
+    /\ forall j, j <> x -> j <> t -> s' j = s j.
+Proof. exact (iadd_scalar_spec flg bdtf icast). Qed.
+Theorem op_imul : forall (x y : nat) (s : store T),
+  yields (w_imul sp (Leaf x) (Leaf y)) s x (vmul (s y) (s x)).
+Proof. exact imul_spec. Qed.
+Theorem op_itruediv : forall (x y : nat) (s : store T),
+  yields (w_itruediv sp (Leaf x) (Leaf y)) s x (vdiv (s x) (s y)).
+Proof. exact itruediv_spec. Qed.
+Theorem op_rtruediv : forall (x y t : nat) (s : store T),
+  yields (w_rtruediv sp (Leaf x) (Leaf y) (Leaf t)) s t (vdiv (s y) (s x)).
+Proof. exact rtruediv_spec. Qed.
 End Operators.
 Print Assumptions op_rsub_scalar.
 Print Assumptions op_add_scalar.
